@@ -273,4 +273,89 @@ theorem nodes_apply_plain {s : State} (idx : Nat) (c : Cmd) (hc : c.isPlain = tr
     | ok s' => simpa [liftS] using catView_nodes (catView_pqSet h)
   | pqDelete id => exact catView_nodes (catView_pqDelete s idx id)
 
+
+theorem svcs_updateSessionCheck {s s' : State} {idx : Nat} {x : Sess} {st : String}
+    (hr : updateSessionCheck s idx x st = .ok s') : s'.svcs = s.svcs := by
+  unfold updateSessionCheck at hr
+  exact foldE_rel (fun a b => b.svcs = a.svcs) (fun _ => rfl) (fun a b c h1 h2 => h2.trans h1) _
+    (fun a c a' h => (ensSpec_ensureCheck h).svcs) _ _ _ hr
+
+theorem svcs_sessionCreate {s s' : State} {idx : Nat} {r : SessReq}
+    (hr : sessionCreate s idx r = .ok s') : s'.svcs = s.svcs := by
+  simp only [sessionCreate] at hr
+  repeat' (split at hr)
+  all_goals (try simp at hr)
+  all_goals (exact (svcs_updateSessionCheck hr).trans rfl)
+
+theorem svcs_apply_plain {s : State} (idx : Nat) (c : Cmd) (hc : c.isPlain = true) : (apply s idx c).1.svcs = s.svcs := by
+  cases c with
+  | register r => simp [Cmd.isPlain] at hc
+  | deregister a b d => simp [Cmd.isPlain] at hc
+  | txn ops => simp [Cmd.isPlain] at hc
+  | kvSet e =>
+    simp only [apply]
+    cases h : kvSetTxn s idx e false with
+    | error er => simp [liftS, Except.map]
+    | ok p => simpa [liftS, Except.map] using catView_svcs (catView_kvSetTxn (w := p.2) (s' := p.1) h)
+  | kvCas e =>
+    simp only [apply]
+    cases h : kvSetCasTxn s idx e with
+    | error er => simp [liftB, Except.map]
+    | ok p =>
+      obtain ⟨s', b, w⟩ := p
+      cases b with
+      | false => simp [liftB, Except.map]
+      | true => simpa [liftB, Except.map] using catView_svcs (catView_kvSetCasTxn h)
+  | kvDelete k =>
+    simp only [apply]
+    cases h : kvDeleteTxn s idx k with
+    | error er => simp [liftS]
+    | ok s' => simpa [liftS] using catView_svcs (catView_kvDeleteTxn h)
+  | kvDeleteCas k ci =>
+    simp only [apply]
+    cases h : kvDeleteCasTxn s idx ci k with
+    | error er => simp [liftB]
+    | ok p =>
+      obtain ⟨s', b⟩ := p
+      cases b with
+      | false => simp [liftB]
+      | true => simpa [liftB] using catView_svcs (catView_kvDeleteCasTxn h)
+  | kvDeleteTree p => exact catView_svcs (catView_kvDeleteTreeTxn s idx p)
+  | kvLock e =>
+    simp only [apply]
+    cases h : kvLockTxn s idx e with
+    | error er => simp [liftB, Except.map]
+    | ok p =>
+      obtain ⟨s', b, w⟩ := p
+      cases b with
+      | false => simp [liftB, Except.map]
+      | true => simpa [liftB, Except.map] using catView_svcs (catView_kvLockTxn h)
+  | kvUnlock e =>
+    simp only [apply]
+    cases h : kvUnlockTxn s idx e with
+    | error er => simp [liftB, Except.map]
+    | ok p =>
+      obtain ⟨s', b, w⟩ := p
+      cases b with
+      | false => simp [liftB, Except.map]
+      | true => simpa [liftB, Except.map] using catView_svcs (catView_kvUnlockTxn h)
+  | sessionCreate r =>
+    simp only [apply]
+    cases h : sessionCreate s idx r with
+    | error er => simp [liftS]
+    | ok s' => simpa [liftS] using svcs_sessionCreate h
+  | sessionDestroy id =>
+    simp only [apply]
+    cases h : deleteSession s idx id with
+    | error er => simp [liftS]
+    | ok s' => simpa [liftS] using (casRel_deleteSession h).svcs
+  | reap u => rfl
+  | pqSet id sess =>
+    simp only [apply]
+    cases h : pqSet s idx id sess with
+    | error er => simp [liftS]
+    | ok s' => simpa [liftS] using catView_svcs (catView_pqSet h)
+  | pqDelete id => exact catView_svcs (catView_pqDelete s idx id)
+
+
 end CV.Store
